@@ -9,7 +9,8 @@
 (***************************************************************************)
 EXTENDS HpoJax, TLC, Json
 
-CONSTANT Families
+CONSTANTS Families,    \* which ontology catalogues: "B" structure x flags, "C" records x version, "D" name shapes, "T" their cross product, "R" six representatives
+          Lattice      \* FALSE: the four presets below; TRUE: every combination of the eight kinds of noise and the three gene-file headers (768)
 
 VARIABLE c
 
@@ -17,7 +18,9 @@ Plain == [tags |-> FALSE, altorder |-> FALSE, typedef |-> FALSE, dup |-> FALSE, 
           nots |-> FALSE, decipher |-> FALSE, comments |-> FALSE, gheader |-> 2]
 Noisy(h, alt) == [tags |-> TRUE, altorder |-> alt, typedef |-> TRUE, dup |-> TRUE, cols |-> TRUE,
                   nots |-> TRUE, decipher |-> TRUE, comments |-> TRUE, gheader |-> h]
-Presets == <<Plain, Noisy(1, FALSE), Noisy(2, TRUE), Noisy(3, FALSE)>>
+LatticeSet == [tags : BOOLEAN, altorder : BOOLEAN, typedef : BOOLEAN, dup : BOOLEAN, cols : BOOLEAN,
+               nots : BOOLEAN, decipher : BOOLEAN, comments : BOOLEAN, gheader : 1..3]
+Presets == IF Lattice THEN SetToSeq(LatticeSet) ELSE <<Plain, Noisy(1, FALSE), Noisy(2, TRUE), Noisy(3, FALSE)>>
 
 JB == {[Default EXCEPT !.fam = "B", !.extra = ex, !.pat = pt, !.flags = fl] :
          ex \in SUBSET {2, 9999999}, pt \in 1..3, fl \in {<<FALSE, 0>>, <<TRUE, 0>>, <<TRUE, 118>>, <<FALSE, 1>>}}
@@ -27,7 +30,25 @@ JD == {[Default EXCEPT !.fam = "D", !.tshape = ts, !.gshape = ts, !.dshape = ts]
       \* a term WITHOUT parents whose name line closes its stanza (no is_a, no further tag): empty name, trailing blank, multi-byte
       \cup {[Default EXCEPT !.fam = "D", !.pat = 1, !.tshape = ts, !.extra = {}] : ts \in {"empty", "trail", "nonascii", "colon"}}
 
-Onts == (IF "B" \in Families THEN JB ELSE {}) \cup (IF "C" \in Families THEN JC ELSE {}) \cup (IF "D" \in Families THEN JD ELSE {})
+(* thorough tier: the cross product of the catalogues (structure x flags x records x version x two name shapes) *)
+JT == {[Default EXCEPT !.fam = "T", !.extra = ex, !.pat = pt, !.flags = fl, !.gsel = g, !.osel = o, !.rsel = r, !.version = ver,
+                       !.tshape = ts, !.gshape = ts, !.dshape = ts] :
+         ex \in SUBSET {2, 9999999}, pt \in 1..4, fl \in {<<FALSE, 0>>, <<TRUE, 0>>, <<TRUE, 118>>, <<FALSE, 1>>},
+         g \in 0..3, o \in 0..2, r \in 0..1, ver \in {<<0, 0, 0>>, <<2024, 12, 31>>}, ts \in {"short", "colon"}}
+(* thorough tier: every name shape and a third release date on top *)
+JTT == {[Default EXCEPT !.fam = "TT", !.extra = ex, !.pat = pt, !.flags = fl, !.gsel = g, !.osel = o, !.rsel = r, !.version = ver,
+                        !.tshape = ts, !.gshape = ts, !.dshape = ts] :
+          ex \in SUBSET {2, 9999999}, pt \in 1..4, fl \in {<<FALSE, 0>>, <<TRUE, 0>>, <<TRUE, 118>>, <<FALSE, 1>>},
+          g \in 0..3, o \in 0..2, r \in 0..1, ver \in {<<0, 0, 0>>, <<2024, 12, 31>>, <<9999, 1, 9>>}, ts \in Shapes}
+(* six representatives for the noise lattice *)
+JR == {[Default EXCEPT !.fam = "R"],
+       [Default EXCEPT !.fam = "R", !.extra = {2, 9999999}, !.pat = 3, !.flags = <<TRUE, 118>>, !.gsel = 3, !.osel = 2],
+       [Default EXCEPT !.fam = "R", !.extra = {}, !.pat = 1, !.tshape = "trail", !.gsel = 0, !.osel = 0, !.rsel = 0, !.version = <<0, 0, 0>>],
+       [Default EXCEPT !.fam = "R", !.tshape = "colon", !.gshape = "colon", !.dshape = "colon", !.flags = <<FALSE, 1>>],
+       [Default EXCEPT !.fam = "R", !.tshape = "nonascii", !.gshape = "nonascii", !.dshape = "nonascii", !.pat = 4, !.gsel = 2],
+       [Default EXCEPT !.fam = "R", !.extra = {9999999}, !.pat = 2, !.flags = <<TRUE, 0>>, !.osel = 2, !.rsel = 0]}
+
+Onts == (IF "TT" \in Families THEN JTT ELSE {}) \cup (IF "T" \in Families THEN JT ELSE {}) \cup (IF "R" \in Families THEN JR ELSE {}) \cup (IF "B" \in Families THEN JB ELSE {}) \cup (IF "C" \in Families THEN JC ELSE {}) \cup (IF "D" \in Families THEN JD ELSE {})
 
 Init == c = [p |-> Default, nzi |-> 0, pm |-> "root"]
 Next ==
